@@ -26,4 +26,10 @@ def paramsOf : Stack → Params
       evictWipes := Facts.dtlcp.caEvictWipesSecret, evictDrops := Facts.dtlcp.caEvictDropsSecret,
       loadClones := Facts.dtlcp.caLoadSessionClones, secretGuard := Facts.dtlcp.caResumeSecretGuard }
 
+def pmsParamsOf : Stack → PmsParams
+  | .tlcp => { len := Facts.tlcp.caPremasterLen, randFrom := Facts.tlcp.caPremasterRandFrom,
+               readFull := Facts.tlcp.caPremasterReadFull }
+  | .dtlcp => { len := Facts.dtlcp.caPremasterLen, randFrom := Facts.dtlcp.caPremasterRandFrom,
+                readFull := Facts.dtlcp.caPremasterReadFull }
+
 end Gotlcp.Model.ClientAuthn
